@@ -46,6 +46,17 @@ def cases(tier):
     for n, m in ((2, 3), (3, 2), (0, 1), (1, 0)):
         out.append(("LEN %d %d" % (n, m), "struct H\n{\n\tm: [%d]i32,\n}\nfn f()\n{\n\tvar h = H { m: [%s] };\n}\n" % (n, ", ".join(["1"] * m)), None))
         out.append(("LEN %d %d" % (n + 10, m + 10), "fn f()\n{\n\tvar a: [%d]i32 = [%s];\n}\n" % (n, ", ".join(["1"] * m)), None))
+    # literals: a naked integer takes any integer type (or char8) from its context and nothing else; a suffixed
+    # integer, a character, a boolean and a string have exactly one type
+    INTS_ = [t for t in PRIMS if t not in ("char8", "bool")]
+    for lname, lit, oktypes in (("naked", "1", INTS_ + ["char8"]), ("suffixed", "1u8", ["u8"]), ("char", "'a'", ["char8"]), ("bool", "true", ["bool"]), ("string", "\"s\"", [])):
+        for a in PRIMS:
+            verdict = "OK" if a in oktypes else None
+            out.append(("LIT-INI %s %s" % (lname, a), "fn f()\n{\n\tvar x: %s = %s;\n}\n" % (a, lit), verdict))
+            out.append(("LIT-ASG %s %s" % (lname, a), "fn f(v: %s)\n{\n\tvar x: %s = v;\n\tx = %s;\n}\n" % (a, a, lit), verdict))
+            out.append(("LIT-ARG %s %s" % (lname, a), "fn g(x: %s)\n{\n}\nfn f()\n{\n\tg(%s);\n}\n" % (a, lit), verdict))
+            out.append(("LIT-RET %s %s" % (lname, a), "fn f() -> %s\n{\n\treturn: %s\n}\n" % (a, lit), verdict))
+            out.append(("LIT-CMP %s %s" % (lname, a), "fn f(v: %s) -> bool\n{\n\tvar r: bool = false;\n\tif v == %s\n\t{\n\t\tr = true;\n\t}\n\treturn: r\n}\n" % (a, lit), verdict))
     for a in PRIMS:
         out.append(("MEMOK %s" % a, "struct H\n{\n\tm: %s,\n}\nfn f(v: %s)\n{\n\tvar h = H { m: v };\n}\n" % (a, a), "OK"))
     return out
@@ -152,7 +163,7 @@ def run(tier):
         ck.violation("tie-broken:proof", "Props/C07.v no longer checks", getattr(ck, "proof_output", "")[-2000:])
     ck.coverage.update(
         evaluations=len(cs) + ne, distinct_nontrivial=len(cs), exhaustive=True,
-        rule="exhaustive over primitive type pairs: every binary operator x 13 x 13 operand types, every comparison x 13 x 13, unary operators x 13, casts 13 x 12, pointer comparisons, pointer-advance offsets x 13, call argument types 13 x 13 and wrong arity, and assignment / initialisation / return / structure literal member / array element with differing types 13 x 12 each, array literals of the wrong length (as member and as initialiser): real verdict and codes vs the extracted gate model (accept iff the gate accepts; the gate's code or another E5xx); plus well-typed generated programs (must be accepted and behave as the interpreter says)",
+        rule="exhaustive over primitive type pairs: every binary operator x 13 x 13 operand types, every comparison x 13 x 13, unary operators x 13, casts 13 x 12, pointer comparisons, pointer-advance offsets x 13, call argument types 13 x 13 and wrong arity, and assignment / initialisation / return / structure literal member / array element with differing types 13 x 12 each, array literals of the wrong length (as member and as initialiser), every kind of literal (naked integer, suffixed integer, character, boolean, string) against every primitive type as initialiser / assigned value / argument / return value / comparand (accepted exactly for the types the literal can have): real verdict and codes vs the extracted gate model (accept iff the gate accepts; the gate's code or another E5xx); plus well-typed generated programs (must be accepted and behave as the interpreter says)",
         stats={k: v for k, v in sorted(stats.items())}, problems=bad,
         samples=[dict(case=cs[1][0], source=cs[1][1], real=impl.get(cs[1][0], ["?"])[0], model=model.get(cs[1][0]))])
     return ck.finish()
